@@ -236,9 +236,116 @@ def extract(notes: list[str]) -> dict:
     return res
 
 
+SCHEMA = "packages/llama-agents-core/src/llama_agents/core/schema/deployments.py"
+
+RX_TYPE = [
+    "/-- the part of Python's regular-expression syntax the label pattern uses, as `re._parser` parses it -/",
+    "inductive Rx where",
+    "  | cls (ranges : List (Nat × Nat))   -- `[...]`: ranges of code points (a literal is a one-point range)",
+    "  | eps",
+    "  | seq (a b : Rx)",
+    "  | rep (lo hi : Nat) (a : Rx)        -- `{lo,hi}`, `?`",
+    "  | unsupported",
+]
+
+
+def _rx(items: list, notes: list[str]) -> str:
+    """Python's own parse of the pattern (`re._parser`) -> a Lean term of type Rx."""
+    import re as _re
+    C = _re._constants  # type: ignore[attr-defined]
+
+    def one(op, av) -> str:
+        if op is C.IN:
+            rs = []
+            for o, a in av:
+                if o is C.RANGE:
+                    rs.append(f"({a[0]}, {a[1]})")
+                elif o is C.LITERAL:
+                    rs.append(f"({a}, {a})")
+                else:
+                    notes.append(f"gen/deployid: unsupported item {o} in a character class of _DNS_1035_RE")
+                    return ".unsupported"
+            return f"(.cls [{', '.join(rs)}])"
+        if op is C.LITERAL:
+            return f"(.cls [({av}, {av})])"
+        if op is C.MAX_REPEAT:
+            lo, hi, sub = av
+            if hi is C.MAXREPEAT:
+                notes.append("gen/deployid: unbounded repetition in _DNS_1035_RE")
+                return ".unsupported"
+            return f"(.rep {lo} {hi} {_rx(list(sub), notes)})"
+        if op is C.SUBPATTERN:
+            _group, add_flags, del_flags, sub = av
+            if add_flags or del_flags:
+                notes.append("gen/deployid: inline flags in _DNS_1035_RE")
+                return ".unsupported"
+            return _rx(list(sub), notes)
+        notes.append(f"gen/deployid: unsupported construct {op} in _DNS_1035_RE")
+        return ".unsupported"
+
+    if not items:
+        return ".eps"
+    terms = [one(op, av) for op, av in items]
+    acc = terms[-1]
+    for t in reversed(terms[:-1]):
+        acc = f"(.seq {t} {acc})"
+    return acc
+
+
+def extract_regex(notes: list[str]) -> dict:
+    import re as _re
+    res = {"anchStart": False, "anchEnd": False, "flags": 999, "rx": ".unsupported", "method": MISSING}
+    try:
+        tree = ast.parse(open(repo_path(SCHEMA)).read())
+    except (OSError, SyntaxError) as e:
+        notes.append(f"gen/deployid: cannot parse {SCHEMA}: {e!r}")
+        return res
+    pat = None
+    nflagargs = 0
+    for n in ast.walk(tree):
+        if isinstance(n, ast.Assign) and len(n.targets) == 1 and isinstance(n.targets[0], ast.Name) and n.targets[0].id == "_DNS_1035_RE":
+            v = n.value
+            if isinstance(v, ast.Call) and v.args and isinstance(v.args[0], ast.Constant) and isinstance(v.args[0].value, str):
+                pat = v.args[0].value
+                nflagargs = len(v.args) - 1 + len(v.keywords)
+    fn = _fn(tree, "validate_dns_1035_label")
+    if fn is not None:
+        for n in ast.walk(fn):
+            if isinstance(n, ast.Call) and isinstance(n.func, ast.Attribute) and isinstance(n.func.value, ast.Name) \
+                    and n.func.value.id == "_DNS_1035_RE":
+                res["method"] = n.func.attr
+    if pat is None:
+        notes.append("gen/deployid: _DNS_1035_RE = re.compile(<literal>) not found")
+        return res
+    C = _re._constants  # type: ignore[attr-defined]
+    try:
+        parsed = _re._parser.parse(pat)  # type: ignore[attr-defined]
+    except Exception as e:  # noqa: BLE001
+        notes.append(f"gen/deployid: _DNS_1035_RE does not parse: {e!r}")
+        return res
+    items = list(parsed)
+    if items and items[0] == (C.AT, C.AT_BEGINNING):
+        res["anchStart"] = True
+        items = items[1:]
+    if items and items[-1] == (C.AT, C.AT_END):
+        res["anchEnd"] = True
+        items = items[:-1]
+    # flags that change what the pattern means (IGNORECASE, MULTILINE, DOTALL, VERBOSE, ASCII, LOCALE); UNICODE is the default
+    res["flags"] = (parsed.state.flags & ~_re.UNICODE.value) + 1000 * nflagargs
+    res["rx"] = _rx(items, notes)
+    return res
+
+
 def generate(notes: list[str]) -> list[str]:
     r = extract(notes)
+    x = extract_regex(notes)
     L = ["namespace Gen.DeployId"]
+    L += RX_TYPE
+    L.append(f"def dnsRx : Rx := {x['rx']}")
+    L.append(f"def dnsAnchoredStart : Bool := {'true' if x['anchStart'] else 'false'}")
+    L.append(f"def dnsAnchoredEnd : Bool := {'true' if x['anchEnd'] else 'false'}")
+    L.append(f"def dnsFlags : Nat := {x['flags']}")
+    L.append(f"def dnsMethod : String := {_lean_str(x['method'])}")
     L.append(f"def loopStart : Nat := {r['loopStart']}")
     L.append(f"def loopStop : Nat := {r['loopStop']}")
     L.append(f"def loopArgs : Nat := {r['loopArgs']}")
